@@ -105,6 +105,11 @@ func (j *c01Judge) judge(op *world.Op, res *world.Result) (cut bool) {
 		ctxSig += "-atomic" // atomic only changes the failure path
 	}
 	ctxSig += "/" + inj
+	if storeFault {
+		// root cause = which storage write failed (the same unchecked write is reached from several operations,
+		// e.g. the supersede write of rollback is also run by the internal rollback of upgrade --atomic)
+		ctxSig = "store-fault/" + inj
+	}
 	if crashed {
 		ctxSig = op.Kind + "/crash"
 	}
